@@ -155,7 +155,14 @@ func check(c Case) *vfrun.Failure {
 							continue
 						}
 						vfrun.Eval()
-						if f := runPoint(s, c, pt); f != nil {
+						f := runPoint(s, c, pt)
+						for retry := 0; f != nil && f.Key == "harness.inconclusive" && retry < 2; retry++ {
+							// no verdict (a loaded machine: goroutines runnable but not yet run): again
+							vfrun.Label("inconclusive-point-retried")
+							time.Sleep(500 * time.Millisecond)
+							f = runPoint(s, c, pt)
+						}
+						if f != nil {
 							if vfrun.IsKnown(f.Key) {
 								continue
 							}
